@@ -291,6 +291,11 @@ pub fn copy_ops(w: usize, thorough: bool) -> Vec<ROp> {
         for wd in [8u8, 16, 32, 64, 128] {
             let mut pfs: Vec<usize> = if thorough { vec![0, 1, 2, wd as usize / 2, wd as usize - 2] } else { vec![0] };
             pfs.push(wd as usize - 1);
+            if !thorough && (n == 1 || n == 2 || n == w / 2) {
+                // a partly filled destination with room for the whole copy (failing copies near the
+                // end of a strict source must leave these bits alone)
+                pfs.push(3);
+            }
             pfs.sort();
             pfs.dedup();
             for pf in pfs {
